@@ -20,5 +20,16 @@ if rc != 0:
     sys.exit(rc)
 driver.go_modfile()
 env = dict(os.environ); env.update(driver.GOENV)
-subprocess.run(["go", "build", "-modfile", os.path.join(driver.RUN, "go.verif.mod"), "./pkg/..."], cwd=driver.REPO, env=env)
+mf = os.path.join(driver.RUN, "go.verif.mod")
+subprocess.run(["go", "build", "-modfile", mf, "./pkg/..."], cwd=driver.REPO, env=env)
+# compile the test variants of the harnessed packages once, so that the first check does not pay for it
+pkgs = set()
+for f in os.listdir(os.path.join(V, "plugins")):
+    if f.endswith(".py"):
+        pl = driver.load_plugin(f[:-3])
+        for h in getattr(pl, "HARNESSES", []):
+            pkgs.add("./" + h["pkg"])
+if pkgs:
+    subprocess.run(["go", "test", "-modfile", mf, "-ldflags=-checklinkname=0", "-vet=off", "-count=1", "-run", "^$"] + sorted(pkgs),
+                   cwd=driver.REPO, env=env, stdout=subprocess.DEVNULL)
 sys.exit(0)
